@@ -598,7 +598,7 @@ func runHistory(r *ev.Run, p *plan, ks ksrig.FullKeyStore) {
 
 // Run is the C10 monitor.
 func Run(r *ev.Run) {
-	r.Rule = "a case is one history: (store kind in {memory,BoltDB} x {plain, encrypting wrapper}) x mode {consistent, random, mixed} x 1-2 token types x value pool (boundary values shared by all 3 client contexts, values unique to one context, fresh values every goroutine tokenizes in the same order) x 2-16 goroutines x per-goroutine op lists over the entry points {Pseudoanonymizer generic/typed, TranslatorService, DataTokenizer text form, TokenEncryptor/TokenProcessor} x a maintenance script (none, status, disable..enable, remove all, disable..remove only disabled, remove only disabled with nothing disabled, dry run, date limits matching nothing/everything, BoltDB close+reopen; through the acra-tokens subcommands in a child process or through the storage visitor); all generated from (seed, history index). Plus a fixed list of decimal boundary texts per integer column, store kind and text entry point, a tokens-used-again matrix (4 store kinds x access-time granularity {24 h default, 0, 1ns} x 5 types x 4 values x {consistent, random}: creation, then three rounds of owner detokenize + consistent tokenize again; distinct = (store configuration, type) where every use answered correctly), and a disabled-token matrix (every boundary value of every type tokenized in both modes on every store kind, all records disabled, every token detokenized through every detokenize entry point, all enabled back, detokenized again; distinct = (store kind, type, entry point) where a token different from its value came back as itself while disabled and as the original afterwards). A history is non-trivial when at least one consistent key had two tokenize calls overlapping in logical time and every oracle saw events; distinct = (store kind, mode, types, goroutine class, maintenance kind, via cli/direct, contention seen) tuples of such histories"
+	r.Rule = "a case is one history: (store kind in {memory,BoltDB} x {plain, encrypting wrapper}) x mode {consistent, random, mixed} x 1-2 token types x value pool (boundary values shared by all 3 client contexts, values unique to one context, fresh values every goroutine tokenizes in the same order) x 2-16 goroutines x per-goroutine op lists over the entry points {Pseudoanonymizer generic/typed, TranslatorService, DataTokenizer text form, TokenEncryptor/TokenProcessor} x a maintenance script (none, status, disable..enable, remove all, disable..remove only disabled, remove only disabled with nothing disabled, dry run, date limits matching nothing/everything, BoltDB close+reopen; through the acra-tokens subcommands in a child process or through the storage visitor); all generated from (seed, history index). Plus a fixed list of decimal boundary texts per integer column, store kind and text entry point, an e-mail shape matrix (9 short e-mail-shaped values x 96 random-mode tokenizations each; distinct = value lengths for which at least two different top-level domains were drawn), a tokens-used-again matrix (4 store kinds x access-time granularity {24 h default, 0, 1ns} x 5 types x 4 values x {consistent, random}: creation, then three rounds of owner detokenize + consistent tokenize again; distinct = (store configuration, type) where every use answered correctly), and a disabled-token matrix (every boundary value of every type tokenized in both modes on every store kind, all records disabled, every token detokenized through every detokenize entry point, all enabled back, detokenized again; distinct = (store kind, type, entry point) where a token different from its value came back as itself while disabled and as the original afterwards). A history is non-trivial when at least one consistent key had two tokenize calls overlapping in logical time and every oracle saw events; distinct = (store kind, mode, types, goroutine class, maintenance kind, via cli/direct, contention seen) tuples of such histories"
 	r.Assumptions = []string{
 		"crypto library replaced by the pure-Go gothemis stand-in (used by the encrypting token-store wrapper through acrablock); AEAD strength is the stand-in's",
 		"token stores covered: in-memory and BoltDB (go.etcd.io/bbolt file in a scratch directory), each plain and behind storage.WrapStorageWithEncryption(NewSCellEncryptor(keystore)); the Redis token store is NOT covered (no Redis server in the sandbox)",
@@ -628,6 +628,9 @@ func Run(r *ev.Run) {
 	for _, k := range storeKinds {
 		disabledMatrix(r, k, ks)
 	}
+
+	// e-mail shape over a fixed number of random draws per short e-mail-shaped value
+	emailShapeMatrix(r, ks)
 
 	// tokens used again and again (6 uses of a consistent token, 3 of a random one) under every access-time granularity: with 0 / 1ns every Get refreshes the record
 	for _, k := range storeKinds {
@@ -669,6 +672,7 @@ func Run(r *ev.Run) {
 		r.RequireAtLeast("format_checked:"+typeName(t), 100)
 	}
 	r.RequireAtLeast("email_shape_checked", 30)
+	r.RequireAtLeast("email_shape_checked_in_matrices", 800)
 	r.RequireAtLeast("owner_detokenize_returned_original", int64(r.Pick(500, 5000)))
 	r.RequireAtLeast("foreign_context_got_token_back", int64(r.Pick(100, 1000)))
 	r.RequireAtLeast("unknown_token_came_back", int64(r.Pick(50, 500)))
